@@ -20,6 +20,10 @@ after a construct.  This file shows what that computes: for `ts = pre ++ rest` i
                             declarations of all six kinds: exact span (doc comments included), body tiled by the parts
 * `content_span`, `load_span`, `parseFile_span`   namespaces, load directives and whole files: the directives and then
                             the contents tile the token list exactly
+* `lex_ordered`, `tokSpan_within`, `tokSpan_before`, `dataType_args_nest`, `record_field_within_pos`,
+  `member_param_within_pos`   nesting in line/column form (`Pos.Within`, `Pos.Before`) on the tokens of a lexed text:
+                            a generic argument lies within its type reference and arguments do not overlap, a field
+                            within its record, a parameter within its method, a type within its field / parameter
 * `lex_segment_text`, `dataType_text_segment`, `field_text_segment`, `dataType_text_span`   in terms of the characters
                             of the source text: between the recorded start and end stand exactly the consumed tokens'
                             texts, separated by the white space that stood between them
@@ -1452,7 +1456,194 @@ theorem field_text_segment {src : String} {toks before ts : List Token} (hl : le
     lex_segment_text (before := before) (rest := rest) hl (by rw [hts, hpre]; simp) hb hnl
   exact ⟨_, p, m, q, psm, hpre, hne, h1, by rw [hpos]; exact h2, by rw [hpos]; exact h3, h4, h5, h6, h7, h8⟩
 
-/-! ## 5. a test on a nested generic type -/
+/-! ## 5. nesting in line/column form -/
+
+/-- the end position of a token as recorded by `spanPos`: on its start line, `len` columns after its start -/
+def ten (t : Token) : Nat × Nat := (t.line, t.col + t.len)
+
+def Pos.start (p : Pos) : Nat × Nat := (p.sl, p.sc)
+def Pos.stop (p : Pos) : Nat × Nat := (p.el, p.ec)
+
+/-- `inner` lies within `outer`: it starts no earlier and ends no later (line first, then column) -/
+def Pos.Within (inner outer : Pos) : Prop := PLe outer.start inner.start ∧ PLe inner.stop outer.stop
+/-- `a` ends before `b` starts -/
+def Pos.Before (a b : Pos) : Prop := PLe a.stop b.start
+
+theorem eq_nil_or_snoc {α : Type} (l : List α) : l = [] ∨ ∃ L b, l = L ++ [b] := by
+  rcases List.eq_nil_or_concat l with h | ⟨L, b, h⟩
+  · exact Or.inl h
+  · exact Or.inr ⟨L, b, by rw [h, List.concat_eq_append]⟩
+
+theorem PLe.refl (a : Nat × Nat) : PLe a a := Or.inr ⟨rfl, Nat.le_refl _⟩
+
+theorem tst_le_ten (t : Token) : PLe (tst t) (ten t) := Or.inr ⟨rfl, Nat.le_add_right _ _⟩
+
+/-- reading order: later tokens start strictly later, and not before the recorded end of earlier ones -/
+def Ordered (ts : List Token) : Prop := ts.Pairwise (fun a b => PLt (tst a) (tst b) ∧ PLe (ten a) (tst b))
+
+theorem advance_end_ge (line col : Nat) (w : List Char) : PLe (line, col + w.length) (advance line col w) := by
+  induction w generalizing col with
+  | nil => simp [advance, PLe]
+  | cons c w ih =>
+    simp only [advance]
+    split
+    · have := advance_ge (line + 1) 0 w
+      left
+      rcases this with h | ⟨h, _⟩
+      · simp only at h ⊢; omega
+      · simp only at h ⊢; omega
+    · have := ih (col + 1)
+      simpa only [List.length_cons, Nat.add_assoc, Nat.add_comm 1] using this
+
+theorem tokensOf_ordered (line col : Nat) (ps : List Piece) (hwf : ∀ p ∈ ps, p.WF) : Ordered (tokensOf line col ps) := by
+  induction ps generalizing line col with
+  | nil => simp [tokensOf, Ordered]
+  | cons p ps ih =>
+    have hwf' : ∀ p ∈ ps, p.WF := fun q hq => hwf q (List.mem_cons_of_mem _ hq)
+    cases p with
+    | ws w => simp only [tokensOf]; exact ih _ _ hwf'
+    | tok k w =>
+      simp only [tokensOf, Ordered, List.pairwise_cons]
+      refine ⟨?_, ih _ _ hwf'⟩
+      intro t ht
+      have hw : w ≠ [] := (hwf (Piece.tok k w) List.mem_cons_self).1
+      exact ⟨PLt_of_lt_le (advance_gt line col w hw) (tokensOf_lb _ _ ps t ht),
+        PLe_trans (advance_end_ge line col w) (tokensOf_lb _ _ ps t ht)⟩
+
+theorem lex_ordered {s : String} {toks : List Token} (h : lex s = some toks) : Ordered toks := by
+  obtain ⟨ps, _, _, hwf, rfl, _⟩ := lex_reconstruct h
+  exact tokensOf_ordered 1 0 ps hwf
+
+theorem Ordered.infix {before seg rest : List Token} (h : Ordered (before ++ seg ++ rest)) : Ordered seg :=
+  List.Pairwise.sublist ((List.sublist_append_right before seg).trans (List.sublist_append_left _ rest)) h
+
+theorem tokSpan_start_cons (a : Token) (p : List Token) : (tokSpan (a :: p)).start = tst a := by
+  have := tokSpan_cons_start a p
+  simp only [Pos.start, tst, this.1, this.2]
+
+theorem tokSpan_stop_concat (p : List Token) (b : Token) : (tokSpan (p ++ [b])).stop = ten b := by
+  have := tokSpan_end (pre := p ++ [b]) (b := b) (by simp)
+  simp only [Pos.stop, ten, this.1, this.2]
+
+/-- **a sub-segment's span lies within the segment's span** -/
+theorem tokSpan_within {l m r : List Token} (h : Ordered (l ++ m ++ r)) (hm : m ≠ []) :
+    (tokSpan m).Within (tokSpan (l ++ m ++ r)) := by
+  obtain ⟨a, m', rfl⟩ := List.exists_cons_of_ne_nil hm
+  rcases eq_nil_or_snoc (a :: m') with hnil | ⟨mm, b, hmm⟩
+  · cases hnil
+  constructor
+  · rw [tokSpan_start_cons]
+    cases l with
+    | nil => simp only [List.nil_append, List.cons_append, tokSpan_start_cons]; exact PLe.refl _
+    | cons x l' =>
+      simp only [List.cons_append, tokSpan_start_cons]
+      simp only [Ordered, List.cons_append, List.pairwise_cons] at h
+      exact (h.1 a (by simp)).1.le
+  · rw [hmm, tokSpan_stop_concat]
+    rcases eq_nil_or_snoc r with rfl | ⟨r', y, rfl⟩
+    · rw [List.append_nil, ← List.append_assoc, tokSpan_stop_concat]; exact PLe.refl _
+    · have e : l ++ (mm ++ [b]) ++ (r' ++ [y]) = (l ++ (mm ++ [b]) ++ r') ++ [y] := by simp
+      rw [e, tokSpan_stop_concat]
+      have e2 : l ++ a :: m' ++ (r' ++ [y]) = (l ++ mm) ++ b :: (r' ++ [y]) := by rw [hmm]; simp
+      rw [e2] at h
+      have := (List.pairwise_append.mp h).2.1
+      simp only [List.pairwise_cons] at this
+      exact PLe_trans (this.1 y (by simp)).2 (tst_le_ten y)
+
+/-- **disjoint sub-segments in order: the first ends before the second starts** -/
+theorem tokSpan_before {l sa mid sb r : List Token} (h : Ordered (l ++ sa ++ mid ++ sb ++ r)) (ha : sa ≠ []) (hb : sb ≠ []) :
+    (tokSpan sa).Before (tokSpan sb) := by
+  obtain ⟨a, sb', rfl⟩ := List.exists_cons_of_ne_nil hb
+  rcases eq_nil_or_snoc sa with rfl | ⟨sa', b, rfl⟩
+  · exact absurd rfl ha
+  unfold Pos.Before
+  rw [tokSpan_stop_concat, tokSpan_start_cons]
+  have e : l ++ (sa' ++ [b]) ++ mid ++ a :: sb' ++ r = (l ++ sa') ++ b :: (mid ++ a :: sb' ++ r) := by simp
+  rw [e] at h
+  have := (List.pairwise_append.mp h).2.1
+  simp only [List.pairwise_cons] at this
+  exact (this.1 a (by simp)).2
+
+
+theorem Ordered.prefix {seg rest : List Token} (h : Ordered (seg ++ rest)) : Ordered seg :=
+  Ordered.infix (before := []) (by simpa using h)
+
+/-- **a generic argument lies within its type reference** (line/column form), and is itself read from an ordered segment
+    (so the statement applies recursively to the arguments of the argument) -/
+theorem TySpan.arg_within_pos {n : String} {args : List TypeRef} {o : Bool} {p : Pos} {seg : List Token}
+    (h : TySpan (.data n args o p) seg) (ho : Ordered seg) {a : TypeRef} (ha : a ∈ args) :
+    a.pos.Within p ∧ ∃ sa, TySpan a sa ∧ Ordered sa := by
+  obtain ⟨l, sa, r, rfl, _, hne, hp, hpa, hsa⟩ := h.arg_within ha
+  rw [hp, hpa]
+  exact ⟨tokSpan_within ho hne, sa, hsa, Ordered.infix ho⟩
+
+/-- **different generic arguments do not overlap**: the earlier one ends before the later one starts -/
+theorem TySpan.args_before_pos {n : String} {args : List TypeRef} {o : Bool} {p : Pos} {seg : List Token}
+    (h : TySpan (.data n args o p) seg) (ho : Ordered seg) {xs ys zs : List TypeRef} {a b : TypeRef}
+    (he : args = xs ++ a :: (ys ++ b :: zs)) : a.pos.Before b.pos := by
+  cases h with
+  | data _ _ _ hd tl hargs =>
+    obtain ⟨l, sa, m, sb, r, rfl, _, h1, h2⟩ := hargs.two_args_disjoint he
+    rw [h1.pos_eq, h2.pos_eq]
+    have ho' : Ordered (l ++ sa ++ m ++ sb ++ r) := Ordered.infix (before := [hd]) (rest := []) (by simpa using ho)
+    exact tokSpan_before ho' h1.ne_nil h2.ne_nil
+
+/-- **C03 nesting of type references on lexed text**: for a type reference parsed from the tokens of a successfully lexed
+    text, every generic argument's recorded position lies within the reference's position, and the arguments' positions
+    are pairwise disjoint and in source order -/
+theorem dataType_args_nest {src : String} {toks before ts : List Token} (hl : lex src = some toks)
+    (hts : toks = before ++ ts) {fuel : Nat} {n : String} {args : List TypeRef} {o : Bool} {p : Pos} {rest : List Token}
+    (h : dataType fuel ts = some (.data n args o p, rest)) :
+    (∀ a ∈ args, a.pos.Within p) ∧
+    (∀ xs ys zs a b, args = xs ++ a :: (ys ++ b :: zs) → a.pos.Before b.pos) := by
+  obtain ⟨pre, hpre, _, _, hspan⟩ := dataType_span fuel ts _ rest h
+  have ho : Ordered pre := by
+    have := lex_ordered hl
+    rw [hts, hpre, ← List.append_assoc] at this
+    exact Ordered.infix this
+  exact ⟨fun a ha => (hspan.arg_within_pos ho ha).1, fun xs ys zs a b he => hspan.args_before_pos ho he⟩
+
+/-- **a field lies within its record, and the field's type within the field** (line/column form) -/
+theorem record_field_within_pos (fuel : Nat) (c' : List String) (cs ts : List Token) (n : String) (c : List String)
+    (fl : List String) (flp : Pos) (fs : List Field) (dv : Option (List (String × Pos))) (p : Pos) (rest : List Token)
+    (h : typeDecl fuel c' (cs ++ ts) ts = some (.record n c fl flp fs dv p, rest)) (ho : Ordered (cs ++ ts))
+    {f : Field} (hf : f ∈ fs) : f.pos.Within p ∧ f.ty.pos.Within f.pos := by
+  obtain ⟨xs, ys, he⟩ := List.append_of_mem hf
+  obtain ⟨l, q, r, hseg, _, _, hq, hp, hfp, hfs⟩ := record_field_within fuel c' cs ts n c fl flp fs dv p rest h he
+  rw [hseg] at ho
+  have ho1 : Ordered (l ++ q ++ r) := ho.prefix
+  refine ⟨by rw [hp, hfp]; exact tokSpan_within ho1 hq, ?_⟩
+  obtain ⟨cs', nm, colon, st, semi, rfl, _, _, _, _, _, hty⟩ := hfs
+  have hoq : Ordered (cs' ++ nm :: colon :: (st ++ [semi])) := Ordered.infix ho1
+  have e : cs' ++ nm :: colon :: (st ++ [semi]) = (cs' ++ [nm, colon]) ++ st ++ [semi] := by simp
+  rw [hfp, hty.pos_eq, e]
+  rw [e] at hoq
+  exact tokSpan_within hoq hty.ne_nil
+
+/-- **a parameter lies within its method, and the parameter's type within the parameter** (line/column form) -/
+theorem member_param_within_pos (fuel : Nat) (ts0 : List Token) (x : Method) (r : List Token)
+    (h : member fuel ts0 = some (.m x, r)) (ho : Ordered ts0) {p : Param} (hp : p ∈ x.params) :
+    p.pos.Within x.pos ∧ (paramType p).pos.Within p.pos := by
+  obtain ⟨pre, rfl, _, hpos, l, sg, semi, fl, fp, rfl, _, hsg⟩ := member_span fuel ts0 _ r h
+  have hpos' : x.pos = tokSpan (l ++ sg ++ [semi]) := hpos
+  have ho1 : Ordered (l ++ sg ++ [semi]) := ho.prefix
+  cases hsg with
+  | mk _ _ _ _ _ l' sp sr _ hps _ =>
+    obtain ⟨xs, ys, he⟩ := List.append_of_mem hp
+    obtain ⟨l'', spp, r'', rfl, hpp, _⟩ := hps.split he
+    have e : l ++ (l' ++ (l'' ++ spp ++ r'') ++ sr) ++ [semi] = (l ++ l' ++ l'') ++ spp ++ (r'' ++ sr ++ [semi]) := by simp
+    rw [e] at ho1
+    refine ⟨by rw [hpos', hpp.pos_eq, e]; exact tokSpan_within ho1 hpp.ne_nil, ?_⟩
+    have hospp : Ordered spp := Ordered.infix ho1
+    cases hpp with
+    | mk n t nm colon st hst =>
+      have e2 : nm :: colon :: st = [nm, colon] ++ st ++ [] := by simp
+      show t.pos.Within (tokSpan (nm :: colon :: st))
+      rw [hst.pos_eq]
+      rw [e2] at hospp ⊢
+      exact tokSpan_within hospp hst.ne_nil
+
+/-! ## 6. tests -/
 
 mutual
 /-- (test helper) the names and recorded positions of a data type reference and its arguments, in pre-order -/
@@ -1522,6 +1713,12 @@ example : (parseText "@import \"a.djinni\"\nnamespace x {\n  # doc\n  r = record
 #print axioms content_span
 #print axioms parseFile_span
 #print axioms dataType_text_span
+#print axioms lex_ordered
+#print axioms tokSpan_within
+#print axioms tokSpan_before
+#print axioms dataType_args_nest
+#print axioms record_field_within_pos
+#print axioms member_param_within_pos
 #print axioms lex_segment_text
 #print axioms dataType_text_segment
 #print axioms field_text_segment
